@@ -638,7 +638,9 @@ where
             arcs.push((u, v));
         }
 
-        order += 1;
+        order = order
+            .checked_add(1)
+            .expect("a digraph has at most `usize::MAX` vertices");
 
         assert!(!arcs.is_empty(), "a digraph has at least one vertex");
 
